@@ -126,15 +126,30 @@ class UserStopIteration(_Tagged, StopIteration):
     helpers that swallow it — `all(map(...))`, `next(gen)` — must not sit between the callback and the caller)"""
 
 
+class UserKeyboardInterrupt(_Tagged, KeyboardInterrupt):
+    """asyncio treats KeyboardInterrupt and SystemExit (and their subclasses) specially: a task that raises one makes
+    the event loop itself stop with it (D34). Raised only where the caller of `send()` can catch it: plain callbacks
+    of a sync machine, any callback of an async machine driven from synchronous code."""
+
+
+class UserSystemExit(_Tagged, SystemExit):
+    pass
+
+
 EXC_KINDS = [UserExc, UserKeyError, UserValueError, UserRuntimeError, UserExc, UserNotImplemented, UserAttributeError,
              UserLookupError, UserBaseExc, UserExc, "tna", UserTypeError, "invdef", UserAssertionError, "invstate",
-             UserOSError, UserTimeout, "tna", UserStopIteration, UserStopIteration]
-MAX_EXC_TAG = 19
+             UserOSError, UserTimeout, "tna", UserStopIteration, UserStopIteration,
+             UserKeyboardInterrupt, UserSystemExit]
+MAX_EXC_TAG = 21
 
 
-def user_exc(tag, in_coroutine=False):
-    """the exception class is a function of the tag (1..19), so a scenario replays exactly"""
+def user_exc(tag, in_coroutine=False, driver="sync"):
+    """the exception class is a function of the tag (1..21), so a scenario replays exactly"""
     k = EXC_KINDS[tag % len(EXC_KINDS)]
+    if k in (UserKeyboardInterrupt, UserSystemExit) and driver not in ("sync", "facade"):
+        # inside a running loop asyncio stops the loop itself with these two: no caller of `await sm.send()` is left
+        # to observe anything
+        return UserBaseExc(tag)
     if isinstance(k, str):
         return _lib_exc(k)(tag)
     if in_coroutine and k is UserStopIteration:
@@ -843,7 +858,7 @@ def make_fn(rt: Runtime, c: Cb, with_self: bool):
         if hook is not None:
             hook(c.id, tid)
         if rz is not None:
-            raise user_exc(rz, in_coroutine=rt.scn.is_async())
+            raise user_exc(rz, in_coroutine=rt.scn.is_async(), driver=rt.scn.driver)
         rt.lines.append(f"E {tid} {ph} {c.id} {rp(POOL[ret])}")
         return POOL[ret]
 
@@ -863,7 +878,7 @@ def make_fn(rt: Runtime, c: Cb, with_self: bool):
         for _ in range(c.yields):
             await asyncio.sleep(0)
         if rz is not None:
-            raise user_exc(rz, in_coroutine=True)
+            raise user_exc(rz, in_coroutine=True, driver=rt.scn.driver)
         rt.lines.append(f"E {tid} {ph} {c.id} {rp(POOL[ret])}")
         return POOL[ret]
 
